@@ -90,6 +90,7 @@ Definition t_NaN : list ltok := Eval vm_compute in L "NaN".
 Definition t_Inf : list ltok := Eval vm_compute in L "Inf".
 Definition t_mInf : list ltok := Eval vm_compute in L "-Inf".
 Definition t_inf : list ltok := Eval vm_compute in L "inf".
+Definition t_minf : list ltok := Eval vm_compute in L "-inf".
 Definition t_linfty : list ltok := Eval vm_compute in L "\infty".
 Definition t_lminfty : list ltok := Eval vm_compute in L "-\infty".
 Definition t_lzoo : list ltok := Eval vm_compute in L "\tilde{\infty}".
@@ -257,7 +258,7 @@ Definition p_infty (fl : flavour) (d : Z) : list ltok :=
   match fl with
   | FStr => if (d <? 0)%Z then t_moo else if (0 <? d)%Z then t_oo else t_zoo
   | FJulia => if (d <? 0)%Z then t_mInf else if (0 <? d)%Z then t_Inf else t_zoo
-  | FSbml => t_inf
+  | FSbml => if (d <? 0)%Z then t_minf else t_inf
   | FLatex => if (d <? 0)%Z then t_lminfty else if (0 <? d)%Z then t_linfty else t_lzoo
   end.
 
